@@ -260,7 +260,8 @@ class Sim:
     WALL_TIMEOUT = 60.0   # seconds the controller waits for a running thread to yield
 
     def __init__(self, policy, stalls=(), interrupts=(), max_decisions=2_000_000,
-                 max_time=1e9, record=True, spin_limit=1000, steps_after_fault=None):
+                 max_time=1e9, record=True, spin_limit=1000, steps_after_fault=None,
+                 interrupt_on_hang=None):
         self.policy = policy
         self.stalls = list(stalls)
         self.interrupts = list(interrupts)
@@ -269,6 +270,10 @@ class Sim:
         self.record_on = record
         self.spin_limit = spin_limit
         self.steps_after_fault = steps_after_fault
+        # role of the thread that receives a KeyboardInterrupt (once) when the whole system has
+        # come to a standstill: the operator who sees a hung table manager and presses Ctrl-C
+        self.interrupt_on_hang = interrupt_on_hang
+        self.hang_interrupt_fired = False
 
         self.ctl = _thread.allocate_lock()
         self.ctl.acquire()
@@ -516,6 +521,18 @@ class Sim:
                         self.log.append((self.decisions, self.now, t.role, 'stall.end', 'idle',
                                          None))
                     continue
+                if self.interrupt_on_hang and not self.hang_interrupt_fired:
+                    self.hang_interrupt_fired = True
+                    t = next((t for t in threads if t.role == self.interrupt_on_hang and
+                              t.parked and not t.finished), None)
+                    if t is not None:
+                        t.inject = KeyboardInterrupt
+                        self.count_fault('interrupt.on_hang')
+                        self._mark_fault()
+                        if self.record_on:
+                            self.log.append((self.decisions, self.now, t.role, 'hang.interrupt',
+                                             t.op, None))
+                        continue
                 break
             choice = policy.choose(self, enabled, has_event)
             self.decisions += 1
